@@ -20,13 +20,13 @@ func init() {
 			if tier == "thorough" {
 				return 3000
 			}
-			return 100
+			return 200
 		},
 		MinNT: func(tier string) int {
 			if tier == "thorough" {
 				return 500
 			}
-			return 20
+			return 40
 		},
 		Run: runC16,
 		Assumptions: []string{
@@ -87,6 +87,10 @@ func runC16(c *Case) {
 		nkeys = r.Range(120, 320)
 	default:
 		nkeys = r.Range(20, 60)
+	}
+	if r.Intn(3) == 0 {
+		// small tables have sparse root nodes, where shared-node defects show at once
+		nkeys = r.Range(6, 30)
 	}
 	keyOf := func(i int) interface{} {
 		if i%11 == 10 {
